@@ -25,7 +25,7 @@ import (
 
 func init() {
 	register(&Prop{ID: "C13", Run: c13Run,
-		Rule: "every case executes one operation through pipeline.New(WithData(doc)).Execute on a generated data document (<= 4 levels, key pool of 6 path-safe keys). set: payload maps x target paths (existing leaf / container / list / list item, absent below a container, absent below a leaf, fresh, empty = root) x strategy {unset, merge, replace, unknown} x nil payload; template: literal / {{ .key }} / failing / YAML-of-a-tree templates x parseAs {unset, none, yaml, unknown} x trim; patch: RFC 6902 ops with pointers derived from the document's own paths, value / valueFrom / from; import: text / binary over random byte strings (incl. invalid UTF-8, empty), yaml / json / properties over encoded subtrees, missing file, unknown mode, empty path; roundtrip: export of a container (or the whole document) as yaml / json re-imported at a fresh path; export: every format (incl. unknown) x target kind (nil path, absent, leaf, list, container, via value and via ref); env: synthetic process environment (os.Clearenv + Setenv, restored afterwards) x include / exclude regex pools; lenient: strings without '{{', with unbalanced braces, failing and working templates; rerun (histories): ONE operation object decoded from pipeline YAML (export with path / file given as immediate value or as {ref: leaf}; set / patch / template / import / env with path, file and template fields partly written as templates over data leaves) is executed 2-4 times through one executor while edits between the executions remove the referenced leaf, turn it into a container / list / other scalar, point it elsewhere, change or remove the target, rewrite or unlink the imported files - every execution is judged on the data of that moment (export: documented rule with path and file resolved on the wire document, only the file named at that moment is touched, model exportOp / resolve; all kinds: same outcome, document and files as a fresh operation object decoded from the same YAML on an equal document). A case is non-trivial when the data document has at least two nodes and the operation's outcome is not an argument error (a history: at least two executions with different data); distinct = distinct canonical case JSON (hash).",
+		Rule: "every case executes one operation through pipeline.New(WithData(doc)).Execute on a generated data document (<= 4 levels, key pool of 6 path-safe keys), along a route named by the case: directly (half of the cases), or through the copy made by CloneWith(ctx) of the operation alone / of the OpSpec / ActionSpec / named step holding it, or as the body of a forEach over one item, one or two levels deep (forEach clones its operations per item) - all predicates and the model comparison are the same on every route, and a fixed table runs every route x every configuration (set strategies x container / leaf / list-item / absent / root targets holding keys the payload lacks, template parseAs x trim, import modes, export formats x target kinds, patch ops, env include / exclude) on one document. set: payload maps x target paths (existing leaf / container / list / list item, absent below a container, absent below a leaf, fresh, empty = root) x strategy {unset, merge, replace, unknown} x nil payload; template: literal / {{ .key }} / failing / YAML-of-a-tree templates x parseAs {unset, none, yaml, unknown} x trim; patch: RFC 6902 ops with pointers derived from the document's own paths, value / valueFrom / from; import: text / binary over random byte strings (incl. invalid UTF-8, empty; half of them led by a special beginning - UTF-8 / UTF-16 / UTF-32 byte order marks whole, doubled and cut, NUL, YAML document / directive / comment / tag / anchor markers, white space and line ends of every kind, quotes, braces, template delimiters, control and magic bytes - and a third ended by a special ending: with and without final line end, CR, NUL, BOM, backslash, padding characters), yaml / json / properties over encoded subtrees, missing file, unknown mode, empty path; roundtrip: export of a container (or the whole document) as yaml / json re-imported at a fresh path; export: every format (incl. unknown) x target kind (nil path, absent, leaf, list, container, via value and via ref); env: synthetic process environment (os.Clearenv + Setenv, restored afterwards) x include / exclude regex pools; lenient: strings without '{{', with unbalanced braces, failing and working templates; rerun (histories): ONE operation object decoded from pipeline YAML (export with path / file given as immediate value or as {ref: leaf}; set / patch / template / import / env with path, file and template fields partly written as templates over data leaves) is executed 2-4 times through one executor while edits between the executions remove the referenced leaf, turn it into a container / list / other scalar, point it elsewhere, change or remove the target, rewrite or unlink the imported files - every execution is judged on the data of that moment (export: documented rule with path and file resolved on the wire document, only the file named at that moment is touched, model exportOp / resolve; all kinds: same outcome, document and files as a fresh operation object decoded from the same YAML on an equal document). A case is non-trivial when the data document has at least two nodes and the operation's outcome is not an argument error (a history: at least two executions with different data); distinct = distinct canonical case JSON (hash).",
 		Assumptions: []string{
 			"keys and path segments are over [A-Za-z0-9_-] (index groups only where a list item is addressed); scalars are NaN-free and -0-free",
 			"text/template + sprig, yaml.v3, encoding/json, magiconair/properties, regexp and the OS are parameters of the model: the harness feeds the model the renderer's / parser's / decoder's / matcher's actual results for the same inputs",
@@ -43,6 +43,7 @@ type c13Set struct {
 	Payload  W       `json:"payload"` // container wire or null (nil Data)
 	Path     string  `json:"path"`
 	Strategy *string `json:"strategy"`
+	Via      string  `json:"via,omitempty"` // route of the execution (c13_via.go); "" = Executor.Execute(op)
 }
 
 type c13Part struct {
@@ -59,6 +60,7 @@ type c13Template struct {
 	Path    string    `json:"path"`
 	ParseAs *string   `json:"parseAs"`
 	Trim    *bool     `json:"trim"`
+	Via     string    `json:"via,omitempty"`
 }
 
 type c13Patch struct {
@@ -68,6 +70,7 @@ type c13Patch struct {
 	From      string  `json:"from"`
 	Value     W       `json:"value"` // plain tree or null
 	ValueFrom *string `json:"valueFrom"`
+	Via       string  `json:"via,omitempty"`
 }
 
 type c13Import struct {
@@ -76,6 +79,7 @@ type c13Import struct {
 	Path    string `json:"path"`
 	Content []byte `json:"content"`
 	Missing bool   `json:"missing,omitempty"`
+	Via     string `json:"via,omitempty"`
 }
 
 type c13Round struct {
@@ -85,6 +89,7 @@ type c13Round struct {
 	Dst    string `json:"dst"`
 	Format string `json:"format"`
 	Pre    bool   `json:"pre,omitempty"` // the target file already exists with longer, unrelated content
+	Via    string `json:"via,omitempty"`
 }
 
 type c13Export struct {
@@ -95,6 +100,7 @@ type c13Export struct {
 	ViaRef  bool   `json:"viaRef,omitempty"` // Path is read from the leaf `pref` of the document
 	BadDir  bool   `json:"badDir,omitempty"` // the file cannot be opened
 	Pre     bool   `json:"pre,omitempty"`    // the target file already exists with longer, unrelated content
+	Via     string `json:"via,omitempty"`
 }
 
 type c13Env struct {
@@ -103,6 +109,7 @@ type c13Env struct {
 	Env     [][2]string `json:"env"`
 	Include *string     `json:"include"`
 	Exclude *string     `json:"exclude"`
+	Via     string      `json:"via,omitempty"`
 }
 
 type c13Lenient struct {
@@ -333,10 +340,10 @@ func c13Run(c *Ctx) {
 	r := c.Rng
 	g := c13Gen()
 	strategies := []*string{nil, nil, strp("merge"), strp("merge"), strp("replace"), strp("replace"), strp("unknown"), strp("")}
-	for i := 0; i < c.N(1500); i++ {
+	for i := 0; i < c.N(2200); i++ {
 		c.Tick()
 		data := g.Doc(r)
-		cs := c13Set{Data: data, Strategy: strategies[r.Intn(len(strategies))]}
+		cs := c13Set{Data: data, Strategy: strategies[r.Intn(len(strategies))], Via: c13PickVia(r)}
 		if r.Intn(12) > 0 {
 			cs.Payload = g.Cont(r, 1)
 			if r.Intn(4) == 0 { // a near-copy of the destination, so that merge meets equal keys
@@ -361,10 +368,10 @@ func c13Run(c *Ctx) {
 		c.Do("set", cs)
 	}
 	parseAs := []*string{nil, strp("none"), strp("yaml"), strp("yaml"), strp("json")}
-	for i := 0; i < c.N(700); i++ {
+	for i := 0; i < c.N(1000); i++ {
 		c.Tick()
 		data := g.Doc(r)
-		ct := c13Template{Data: data, Path: c13Target(r, g, data), ParseAs: parseAs[r.Intn(len(parseAs))]}
+		ct := c13Template{Data: data, Path: c13Target(r, g, data), ParseAs: parseAs[r.Intn(len(parseAs))], Via: c13PickVia(r)}
 		if r.Intn(3) > 0 {
 			ct.Trim = boolp(r.Intn(2) == 0)
 		}
@@ -396,10 +403,10 @@ func c13Run(c *Ctx) {
 		c.Do("template", ct)
 	}
 	ops := []string{"add", "add", "remove", "replace", "move", "copy", "test", "bogus"}
-	for i := 0; i < c.N(700); i++ {
+	for i := 0; i < c.N(1000); i++ {
 		c.Tick()
 		data := g.Doc(r)
-		cp := c13Patch{Data: data, Op: pick(r, ops), Path: c13Pointer(c13Target(r, g, data))}
+		cp := c13Patch{Data: data, Op: pick(r, ops), Path: c13Pointer(c13Target(r, g, data)), Via: c13PickVia(r)}
 		if r.Intn(20) == 0 {
 			cp.Path = pick(r, []string{"no-slash", "", "/"})
 		}
@@ -429,10 +436,10 @@ func c13Run(c *Ctx) {
 		c.Do("patch", cp)
 	}
 	modes := []string{"", "text", "binary", "binary", "yaml", "json", "properties", "bogus"}
-	for i := 0; i < c.N(700); i++ {
+	for i := 0; i < c.N(1000); i++ {
 		c.Tick()
 		data := g.Doc(r)
-		ci := c13Import{Data: data, Mode: pick(r, modes), Path: c13Target(r, g, data)}
+		ci := c13Import{Data: data, Mode: pick(r, modes), Path: c13Target(r, g, data), Via: c13PickVia(r)}
 		if r.Intn(10) == 0 {
 			ci.Path = ""
 		}
@@ -463,6 +470,19 @@ func c13Run(c *Ctx) {
 					b[j] = "abcXYZ019 \n=.{}é"[r.Intn(16)]
 				}
 			}
+			// "for all byte strings": beginnings and endings that readers, decoders and editors are
+			// known to treat specially — byte order marks, NUL, document / comment markers, white
+			// space, line ends — around the random body (or alone)
+			if r.Intn(2) == 0 {
+				h := pick(r, c13Heads)
+				if r.Intn(3) == 0 {
+					h = pick(r, c13Heads[:8]) // byte order marks and NUL
+				}
+				b = append([]byte(h), b...)
+			}
+			if r.Intn(3) == 0 {
+				b = append(b, pick(r, c13Tails)...)
+			}
 			ci.Content = b
 		}
 		if ci.Content == nil {
@@ -473,12 +493,12 @@ func c13Run(c *Ctx) {
 		}
 		c.Do("import", ci)
 	}
-	for i := 0; i < c.N(600); i++ {
+	for i := 0; i < c.N(800); i++ {
 		c.Tick()
 		gb := stdGen()
 		gb.PLeaf = 0.4
 		data := gb.Doc(r)
-		cr := c13Round{Data: data, Format: pick(r, []string{"yaml", "json"}), Dst: pick(r, []string{"imp", "imp.q", "n1.n2.n3"}), Pre: r.Intn(2) == 0}
+		cr := c13Round{Data: data, Format: pick(r, []string{"yaml", "json"}), Dst: pick(r, []string{"imp", "imp.q", "n1.n2.n3"}), Pre: r.Intn(2) == 0, Via: c13PickVia(r)}
 		conts := c13ContPaths(data)
 		if len(conts) == 0 || r.Intn(3) == 0 {
 			cr.Whole = true
@@ -488,10 +508,10 @@ func c13Run(c *Ctx) {
 		c.Do("roundtrip", cr)
 	}
 	formats := []string{"yaml", "json", "properties", "text", "xml", ""}
-	for i := 0; i < c.N(900); i++ {
+	for i := 0; i < c.N(1200); i++ {
 		c.Tick()
 		data := g.Doc(r)
-		ce := c13Export{Data: data, Format: pick(r, formats), Path: c13Target(r, g, data), Pre: r.Intn(2) == 0}
+		ce := c13Export{Data: data, Format: pick(r, formats), Path: c13Target(r, g, data), Pre: r.Intn(2) == 0, Via: c13PickVia(r)}
 		switch r.Intn(8) {
 		case 0:
 			ce.NilPath = true
@@ -508,10 +528,10 @@ func c13Run(c *Ctx) {
 	names := []string{"YTKV_A", "YTKV_B1", "YTKV_", "HOME_X", "PATHY", "a_b", "X9", "Y"}
 	vals := []string{"", "1", "v", "a=b", "x y", "é", "/usr/bin:/bin", "{{ .a }}", "a.b[0]"}
 	res := []*string{nil, nil, strp("^YTKV_"), strp("A"), strp("_B"), strp("^$"), strp(".*"), strp("[0-9]$"), strp("X|Y"), strp("^a")}
-	for i := 0; i < c.N(500); i++ {
+	for i := 0; i < c.N(700); i++ {
 		c.Tick()
 		data := g.Doc(r)
-		ce := c13Env{Data: data, Include: res[r.Intn(len(res))], Exclude: res[r.Intn(len(res))], Env: [][2]string{}}
+		ce := c13Env{Data: data, Include: res[r.Intn(len(res))], Exclude: res[r.Intn(len(res))], Env: [][2]string{}, Via: c13PickVia(r)}
 		if r.Intn(2) == 0 {
 			ce.Path = c13Target(r, g, data)
 		}
@@ -567,9 +587,17 @@ func c13Run(c *Ctx) {
 			c.Do("export", c13Export{Data: data, Format: f, NilPath: true})
 			c.Do("export", c13Export{Data: data, Format: f, ViaRef: true, Path: "cont"})
 		}
+		c13RunVia(c)
 	}
 	c13RunRerun(c)
 }
+
+// c13Heads / c13Tails: special beginnings and endings of imported files.
+var c13Heads = []string{"\xef\xbb\xbf", "\xef\xbb\xbf\xef\xbb\xbf", "\xef\xbb", "\xfe\xff", "\xff\xfe", "\xff\xfe\x00\x00", "\x00", "\x00\x00",
+	"---", "---\n", "--- ", "...\n", "#", "# c\n", "#!", "%YAML 1.2\n", "!", "!!binary ", "&a ", "*a", "? ", "- ", "|", ">", "@", "`",
+	" ", "  ", "\t", "\n", "\n\n", "\r\n", "\r", "\v", "\f", "\u00a0", "\u2028", "\u0085", "\ufffe",
+	"{", "[", "\"", "'", "=", ":", "\\", "{{", "{{ .a }}", "\x1b[0m", "\x7f", "\x1a", "PK\x03\x04", "\x1f\x8b", "data:", "base64,"}
+var c13Tails = []string{"\n", "\n\n", "\r\n", "\r", " ", "\t", " \n", "\x00", "\x1a", "\xef\xbb\xbf", "\\", "\\\n", "=", "==", "\n...\n", "\n---\n", "\xff"}
 
 // ------------------------------------------------------------------ evaluation
 
@@ -678,13 +706,14 @@ func c13EvalSet(c *Ctx, raw []byte) {
 	if err := json.Unmarshal(raw, &p); err != nil {
 		panic(err)
 	}
-	if !c13IsDoc(p.Data) || (p.Payload != nil && !c13IsDoc(p.Payload)) {
+	if !c13IsDoc(p.Data) || (p.Payload != nil && !c13IsDoc(p.Payload)) || !c13ViaDomain(p.Via, p.Data, p.Payload) {
 		return
 	}
 	segs, ok := c13ParsePath(p.Path)
 	if !ok {
 		return
 	}
+	c.Dist("via:" + p.Via)
 	gd := wireContainer(p.Data)
 	before := nodeWire(gd)
 	op := &pipeline.SetOp{Path: p.Path}
@@ -697,7 +726,7 @@ func c13EvalSet(c *Ctx, raw []byte) {
 		op.Strategy = &s
 		strategy = *p.Strategy
 	}
-	tag, txt := c13Exec(gd, op)
+	tag, txt := c13ExecVia(gd, op, p.Via)
 	after, snapOK, stxt := c13After(gd)
 	if !c.Direct("no-panic", tag != "panic" && snapOK, txt+stxt) {
 		return
@@ -939,13 +968,14 @@ func c13EvalTemplate(c *Ctx, raw []byte) {
 	if err := json.Unmarshal(raw, &p); err != nil {
 		panic(err)
 	}
-	if !c13IsDoc(p.Data) {
+	if !c13IsDoc(p.Data) || !c13ViaDomain(p.Via, p.Data) {
 		return
 	}
 	segs, ok := c13ParsePath(p.Path)
 	if !ok {
 		return
 	}
+	c.Dist("via:" + p.Via)
 	text, expect, yamlTree := c13TemplateText(&p)
 	gd := wireContainer(p.Data)
 	before := nodeWire(gd)
@@ -957,7 +987,7 @@ func c13EvalTemplate(c *Ctx, raw []byte) {
 		mode = *p.ParseAs
 	}
 	trim := p.Trim != nil && *p.Trim
-	tag, txt := c13Exec(gd, op)
+	tag, txt := c13ExecVia(gd, op, p.Via)
 	after, snapOK, stxt := c13After(gd)
 	if !c.Direct("no-panic", tag != "panic" && snapOK, txt+stxt) {
 		return
@@ -1034,9 +1064,12 @@ func c13EvalPatch(c *Ctx, raw []byte) {
 	if err := json.Unmarshal(raw, &p); err != nil {
 		panic(err)
 	}
-	if !c13IsDoc(p.Data) {
+	if !c13IsDoc(p.Data) || !c13ViaDomain(p.Via, p.Data) {
 		return
 	}
+	c.Dist("via:" + p.Via)
+	// the document as the operation sees it (inside a forEach body it also holds the item variable)
+	seen := c13Seen(p.Data, p.Via)
 	// A: the pipeline operation
 	gdA := wireContainer(p.Data)
 	opA := &pipeline.PatchOp{Op: patch.Op(p.Op), Path: p.Path, From: p.From, ValueFrom: p.ValueFrom}
@@ -1049,13 +1082,13 @@ func c13EvalPatch(c *Ctx, raw []byte) {
 		opA.Value = av
 		valueWire = nodeWire(av.Value())
 	}
-	tagA, txtA := c13Exec(gdA, opA)
+	tagA, txtA := c13ExecVia(gdA, opA, p.Via)
 	afterA, finiteA, ftxt := c13After(gdA)
 	if !c.Direct("patch-op-leaves-a-finite-document(Snapshot works)", finiteA, ftxt) {
 		return
 	}
 	// B: patch.Do on an equal document with the corresponding operation object
-	gdB := wireContainer(p.Data)
+	gdB := wireContainer(seen)
 	tagB := "ok"
 	func() {
 		path, err := patch.ParsePath(p.Path)
@@ -1090,6 +1123,7 @@ func c13EvalPatch(c *Ctx, raw []byte) {
 			tagB = "err"
 		}
 	}()
+	c13Unsee(gdB, p.Via)
 	afterB, _, _ := c13After(gdB)
 	c.Dist("patch:op=" + p.Op + ":" + tagA)
 	if tagA == "ok" && c13NodeCount(p.Data) >= 2 {
@@ -1115,7 +1149,7 @@ func c13EvalPatch(c *Ctx, raw []byte) {
 	}
 	// model: the arguments the model hands to patch.Do, executed by the real patch.Do
 	m, _ := c.Model("patchargs", map[string]any{"data": p.Data, "op": p.Op, "from": p.From, "path": p.Path, "value": valueWire, "valueFrom": p.ValueFrom}).(map[string]any)
-	gdC := wireContainer(p.Data)
+	gdC := wireContainer(seen)
 	tagC := "ok"
 	if m == nil {
 		tagC = "model-error"
@@ -1148,6 +1182,7 @@ func c13EvalPatch(c *Ctx, raw []byte) {
 			}
 		}
 	}
+	c13Unsee(gdC, p.Via)
 	afterC, _, _ := c13After(gdC)
 	c.Corr("patchOp", map[string]any{"out": tagA, "data": afterA}, map[string]any{"out": tagC, "data": afterC})
 }
@@ -1165,13 +1200,14 @@ func c13EvalImport(c *Ctx, raw []byte) {
 	if err := json.Unmarshal(raw, &p); err != nil {
 		panic(err)
 	}
-	if !c13IsDoc(p.Data) {
+	if !c13IsDoc(p.Data) || !c13ViaDomain(p.Via, p.Data) {
 		return
 	}
 	segs, ok := c13ParsePath(p.Path)
 	if !ok {
 		return
 	}
+	c.Dist("via:" + p.Via)
 	dir := c13TempDir(c)
 	defer os.RemoveAll(dir)
 	file := filepath.Join(dir, "in.dat")
@@ -1182,7 +1218,7 @@ func c13EvalImport(c *Ctx, raw []byte) {
 	}
 	gd := wireContainer(p.Data)
 	before := nodeWire(gd)
-	tag, txt := c13Exec(gd, &pipeline.ImportOp{File: file, Path: p.Path, Mode: pipeline.ParseFileMode(p.Mode)})
+	tag, txt := c13ExecVia(gd, &pipeline.ImportOp{File: file, Path: p.Path, Mode: pipeline.ParseFileMode(p.Mode)}, p.Via)
 	after, snapOK, stxt := c13After(gd)
 	if !c.Direct("no-panic", tag != "panic" && snapOK, txt+stxt) {
 		return
@@ -1293,14 +1329,15 @@ func c13EvalRound(c *Ctx, raw []byte) {
 	if err := json.Unmarshal(raw, &p); err != nil {
 		panic(err)
 	}
-	if !c13IsDoc(p.Data) || (p.Format != "yaml" && p.Format != "json") {
+	if !c13IsDoc(p.Data) || (p.Format != "yaml" && p.Format != "json") || !c13ViaDomain(p.Via, p.Data) {
 		return
 	}
+	c.Dist("via:" + p.Via)
 	dsegs, ok := c13ParsePath(p.Dst)
 	if !ok || len(dsegs) == 0 {
 		return
 	}
-	var sub W = p.Data
+	var sub W = c13Seen(p.Data, p.Via) // the whole document as the export sees it
 	if !p.Whole {
 		s, ok := c13WireAt(p.Data, p.Src)
 		if !ok || !c13IsDoc(s) {
@@ -1323,14 +1360,14 @@ func c13EvalRound(c *Ctx, raw []byte) {
 	if !p.Whole {
 		ex.Path = &pipeline.ValOrRef{Val: p.Src}
 	}
-	tag, txt := c13Exec(gd, ex)
+	tag, txt := c13ExecVia(gd, ex, p.Via)
 	mid, snapOK, stxt := c13After(gd)
 	if !c.Direct("no-panic", tag != "panic" && snapOK, txt+stxt) {
 		return
 	}
 	c.Direct("export-no-error", tag == "ok", txt)
 	c.Direct("export-does-not-change-data", canon(mid) == canon(before), mid)
-	tag2, txt2 := c13Exec(gd, &pipeline.ImportOp{File: file, Path: p.Dst, Mode: pipeline.ParseFileMode(p.Format)})
+	tag2, txt2 := c13ExecVia(gd, &pipeline.ImportOp{File: file, Path: p.Dst, Mode: pipeline.ParseFileMode(p.Format)}, p.Via)
 	after, snapOK, stxt := c13After(gd)
 	if !c.Direct("no-panic", tag2 != "panic" && snapOK, txt2+stxt) {
 		return
@@ -1455,12 +1492,13 @@ func c13EvalExport(c *Ctx, raw []byte) {
 	if err := json.Unmarshal(raw, &p); err != nil {
 		panic(err)
 	}
-	if !c13IsDoc(p.Data) {
+	if !c13IsDoc(p.Data) || !c13ViaDomain(p.Via, p.Data) {
 		return
 	}
 	if _, ok := c13ParsePath(p.Path); !ok {
 		return
 	}
+	c.Dist("via:" + p.Via)
 	data := p.Data
 	if p.ViaRef {
 		d := deepCopyW(p.Data)
@@ -1494,8 +1532,10 @@ func c13EvalExport(c *Ctx, raw []byte) {
 		ex.Path = &pipeline.ValOrRef{Val: p.Path}
 		pathArg = map[string]any{"isRef": false, "ref": "", "val": p.Path}
 	}
-	tag, txt := c13Exec(gd, ex)
+	tag, txt := c13ExecVia(gd, ex, p.Via)
 	after, snapOK, stxt := c13After(gd)
+	// from here on: the document as the operation saw it (inside a forEach body it also held the item variable)
+	data = c13Seen(data, p.Via)
 	// target kind, from the wire document
 	var target W
 	kindOf := "absent"
@@ -1546,13 +1586,14 @@ func c13EvalEnv(c *Ctx, raw []byte) {
 	if err := json.Unmarshal(raw, &p); err != nil {
 		panic(err)
 	}
-	if !c13IsDoc(p.Data) {
+	if !c13IsDoc(p.Data) || !c13ViaDomain(p.Via, p.Data) {
 		return
 	}
 	segs, ok := c13ParsePath(p.Path)
 	if !ok {
 		return
 	}
+	c.Dist("via:" + p.Via)
 	nameRe := regexp.MustCompile(`^[A-Za-z0-9_]+$`)
 	seen := map[string]bool{}
 	for _, e := range p.Env {
@@ -1581,7 +1622,7 @@ func c13EvalEnv(c *Ctx, raw []byte) {
 	for _, e := range p.Env {
 		_ = os.Setenv(e[0], e[1])
 	}
-	tag, txt := c13Exec(gd, op)
+	tag, txt := c13ExecVia(gd, op, p.Via)
 	os.Clearenv()
 	for _, kv := range saved {
 		if i := strings.Index(kv, "="); i > 0 {
